@@ -267,8 +267,8 @@ Example ex_f21_text_under_the_option :
   scan_quantity (reader_dc false false) [51;49;48;44;50;48;48;48;48;48] = Ok (mkPQ 310200000 0 true false).
 Proof. exact f21_text_under_the_option. Qed.
 
-(* the loop that removes the marks before mpq_set_str (amount_t::parse: a mark is skipped and the next character copied
-   unconditionally): digits pass unchanged and a mark standing between digits disappears, so a "digits mark digits" text
+(* the loop that removes the marks before mpq_set_str (amount_t::parse: every mark is skipped):
+   digits pass unchanged, no mark survives and a mark standing between digits disappears, so a "digits mark digits" text
    is handed to mpq_set_str as its digits alone - which is what the reader model's digits_value reads *)
 Theorem stripping_loop_leaves_digits : forall s, Forall (fun c => is_digit c = true) s -> strip_marks s = s.
 Proof. exact strip_marks_digits. Qed.
@@ -280,10 +280,17 @@ Theorem stripping_loop_accepts_plain_decimal_texts : forall c0 ip fp m,
 Proof. exact set_str_accepts_plain_decimal. Qed.
 Print Assumptions stripping_loop_accepts_plain_decimal_texts.
 
-(* ... and on a malformed text with two marks side by side one of them survives, mpq_set_str refuses the text and the
-   amount is silently taken as zero: `1.,2 EUR` is 0 EUR with one decimal (ledger does this; the faithful model follows) *)
-Example ex_adjacent_marks_read_as_zero :
-  strip_marks [49;46;44;50] = [49;44;50] /\ set_str_accepts [49;46;44;50] = false /\
-  (exists pa, parse_amount_text_session false false [49;46;44;50;32;69;85;82] = Ok pa /\ pa_num pa = 0 /\ pa_prec pa = 1) /\
+Theorem stripping_loop_leaves_no_mark : forall s, forallb (fun c => negb (is_mark c)) (strip_marks s) = true.
+Proof. exact strip_marks_only_digits. Qed.
+Print Assumptions stripping_loop_leaves_no_mark.
+
+(* ... and on a text with two marks side by side both go, mpq_set_str gets the digits and the amount is what the scan
+   made of it, never a silent zero: `1.,2 EUR` is 1,2 EUR (decimal comma), `1,.2 EUR` is 1.2 EUR *)
+Example ex_adjacent_marks_both_stripped :
+  strip_marks [49;46;44;50] = [49;50] /\ set_str_accepts [49;46;44;50] = true /\
+  (exists pa, parse_amount_text_session false false [49;46;44;50;32;69;85;82] = Ok pa /\ pa_num pa = 12 /\ pa_prec pa = 1
+              /\ st_decimal_comma (pa_style pa) = true) /\
+  (exists pa, parse_amount_text_session false false [49;44;46;50;32;69;85;82] = Ok pa /\ pa_num pa = 12 /\ pa_prec pa = 1
+              /\ st_decimal_comma (pa_style pa) = false) /\
   (exists pa, parse_amount_text_session false false [49;44;50;32;69;85;82] = Ok pa /\ pa_num pa = 12 /\ pa_prec pa = 1).
-Proof. exact adjacent_marks_read_as_zero. Qed.
+Proof. exact adjacent_marks_both_stripped. Qed.
